@@ -450,7 +450,14 @@ mod exec {
         /// use `detached()`.
         pub fn capture(self) -> PopenResult<CaptureData> {
             let (mut comm, mut p) = self.setup_communicate()?;
-            let (maybe_out, maybe_err) = comm.read()?;
+            let result = comm.read();
+            // Release our ends of the pipes before anything waits for the
+            // process.  When the exchange has failed (e.g. EPIPE because the
+            // process closed its stdin), the process may still be writing
+            // output nobody will read; with our read ends open it would
+            // block forever and so would the wait in Popen::drop().
+            drop(comm);
+            let (maybe_out, maybe_err) = result?;
             Ok(CaptureData {
                 stdout: maybe_out.unwrap_or_else(Vec::new),
                 stderr: maybe_err.unwrap_or_else(Vec::new),
@@ -1109,7 +1116,11 @@ mod pipeline {
         /// close.  If this is undesirable, use `detached()`.
         pub fn capture(self) -> PopenResult<CaptureData> {
             let (mut comm, mut v) = self.setup_communicate()?;
-            let (out, err) = comm.read()?;
+            let result = comm.read();
+            // as in Exec::capture(): release our pipe ends before the
+            // commands are waited for, also when the exchange has failed
+            drop(comm);
+            let (out, err) = result?;
             let out = out.unwrap_or_else(Vec::new);
             let err = err.unwrap();
 
